@@ -63,7 +63,26 @@ def _sock_script(draw, gen: int):
     tracked_at = draw(st.integers(0, n - 1))
     for i in range(n):
         if i == tracked_at:
-            pre = draw(st.sampled_from(["none", "fault1", "fault2", "fault3", "down", "down", "chain", "down_armed", "late_retry", "long_outage"]))
+            pre = draw(st.sampled_from(["none", "fault1", "fault2", "fault3", "down", "down", "chain", "down_armed", "late_retry", "long_outage", "stalled_flush"]))
+            if pre == "stalled_flush":
+                # messages pile up during an outage; the new connection takes n writes and then exerts back-pressure, so
+                # the flush is suspended in drain() while the lifetime of a message further back in the queue runs out;
+                # when the console reads again that message must not be written any more
+                ops.append(["backpressure", draw(st.integers(1, 5))])
+                ops.append(["down", 1, 0.0])
+                ops.append(["send", "F", draw(st.integers(0, 2)), 30.0])
+                if draw(st.booleans()):
+                    ops.append(["send", "F", draw(st.integers(0, 2)), 30.0])
+                if draw(st.booleans()):
+                    ops.append(["send", "T", "conn", None])          # 1 s lifetime (refresh-type request)
+                else:
+                    ops.append(["send", "T", draw(st.integers(0, 3)), 4.0])
+                ops.append(["send", "F", draw(st.integers(0, 2)), 30.0])
+                ops.append(["advance", 2.0])                          # the retry connects; the flush starts and stalls
+                ops.append(["advance", draw(st.sampled_from([0.5, 1.0, 2.0, 3.0]))])
+                ops.append(["resume"])
+                ops.append(["advance", 1.0])
+                continue
             if pre == "long_outage":
                 # every connection attempt is refused for about as long as the stock lifetime: the message is submitted
                 # so that one of the 2 s retries falls exactly at a + L + delta, and the network accepts from just before
@@ -192,6 +211,12 @@ def run_sock(case, stats: Stats | None):
             elif name == "script":
                 for k_, lat_ in op[1]:
                     net.script.append((k_, lat_))
+            elif name == "backpressure":
+                net.pause_on_accept.append(op[1])
+            elif name == "resume":
+                if net.current is not None:
+                    net.current.pause_after = None
+                    net.current.resume_writing()
             elif name == "default":
                 net.default = (op[1], 0.0)
             elif name == "advance_rel_exact":
@@ -236,6 +261,8 @@ def run_sock(case, stats: Stats | None):
                 bad("sent-after-expiry", f"message pid={m['pid']} accepted at t={m['a']} with lifetime {m['L']} was written at "
                                          f"t={late[0][0]} (>= {m['a'] + m['L']})")
         classes = [f"gen{gen}"] + (["long-outage"] if ["default", "refuse"] in case["ops"] else [])
+        if any(e[1] == "pause" for e in net.log):
+            classes.append("flush-stalled-by-backpressure")
         nt = False
         if tracked is not None:
             ss = starts[tracked["pid"]]
@@ -597,7 +624,7 @@ def shards(tier: str):
 def floors(tier: str):
     return {"fault-hit-tracked": 100, "accepted-while-down": 100, "resent-first": 30, "open-at-deadline": 5,
             "open-just-before-deadline": 5, "open-just-after-deadline": 5, "toggle-on-wire": 50, "retried": 30,
-            "error-request-on-wire": 30, "reconnect-near-deadline-after-fault": 40, "long-outage": 150}
+            "error-request-on-wire": 30, "reconnect-near-deadline-after-fault": 40, "long-outage": 150, "flush-stalled-by-backpressure": 100}
 
 
 def run_shard(spec, seed: int, tier: str):
